@@ -31,7 +31,7 @@ import (
 var (
 	pertSeed  atomic.Uint64
 	pertCount atomic.Uint64
-	pertLevel atomic.Int32 // 0 off, 1 light, 2 heavy
+	pertLevel atomic.Int32 // 0 off, 1 light, 2 heavy, 3 heavy with rare millisecond stalls
 	Yields    atomic.Int64
 )
 
@@ -62,6 +62,10 @@ func yield(site string) {
 		for i := 0; i < 5; i++ {
 			runtime.Gosched()
 		}
+	case r%512 == 7 && lvl >= 3:
+		// level 3: now and then a goroutine is held for milliseconds (long enough for a connection over the in-memory
+		// transport to be dialed and become READY meanwhile)
+		time.Sleep(time.Duration(1+r>>8%4) * time.Millisecond)
 	}
 }
 
